@@ -163,6 +163,11 @@ def login_case(ctx, case):
     if order == ['compress', 'encrypt']:
         ctx.label('compress_before_encrypt')
     ctx.label('terminal_' + term[0], 'steps_%d' % min(nopt, 4))
+    if state == 'runaway':
+        ctx.fail('login', 'L-endless-reconnect-loop', case,
+                 'more than %d TCP connections in one scenario'
+                 % world.max_connects)
+        return
     if state == 'blocked':
         ctx.fail('login', 'L2-client-blocks-in-read', case,
                  'the client waits for ever for bytes the server never '
@@ -254,6 +259,8 @@ def login_case(ctx, case):
 
 
 def real_login_case(ctx, case):
+    if ctx.labels.get('real_socket_run_inconclusive_timeout', 0) >= 2:
+        return          # stop burning wall-clock on a hanging client
     """The same script over real loopback TCP (validation of the in-memory
     transport): L1, L4, L5 (keep-alive answered, exit once), L6 (error
     class)."""
@@ -296,8 +303,11 @@ def real_login_case(ctx, case):
                           handle_exception=lambda e, i: excs.append(e),
                           handle_exit=lambda: exits.append(1))
         conn.connect()
-        if world.settle(conn) != 'done':
-            raise HarnessError('real-socket login did not settle (timeout)')
+        if world.settle(conn, 8.0) != 'done':
+            # inconclusive (slow machine or a hang): the in-memory tasks
+            # decide; only counted
+            ctx.label('real_socket_run_inconclusive_timeout')
+            return
     finally:
         world.close()
     srv = srvs[0]
